@@ -50,7 +50,7 @@ func init() {
 		Name:  "FLOW-encgate",
 		Doc:   "in every percent-encoder (module function taking a *PercentEncodeSet and returning a string) each piece of the result is either the answer of a sub-encoder called with the same set or with set.Set(…) (a superset), an escape built in place, or raw data dominated by the set's own RuneShouldBeEncoded / ByteShouldBeEncoded answering false for that very value: no code point bypasses the set",
 		Props: []string{"C10"},
-		Floor: 6,
+		Floor: 3,
 		Run: func(c *Ctx, s *core.Sink) {
 			for _, f := range c.P.ModFns {
 				if len(f.Blocks) == 0 || f.Parent() != nil {
